@@ -12,6 +12,8 @@ void call_v_p(void (*cb)(int *), int *p);
 short call_h_c(short (*cb)(char), char c);
 typedef struct { signed char a; short b; } spt_t;
 int call_s_i(spt_t (*cb)(int), int x);
+int call_i_b(int (*cb)(_Bool), int raw);
+int call_raw_i_i(uintptr_t addr, int x);
 """
 SRC = """
 int call_i_i(int (*cb)(int), int x) { return cb(x); }
@@ -22,11 +24,15 @@ void call_v_p(void (*cb)(int *), int *p) { cb(p); }
 short call_h_c(short (*cb)(char), char c) { return cb(c); }
 typedef struct { signed char a; short b; } spt_t;
 int call_s_i(spt_t (*cb)(int), int x) { spt_t r = cb(x); return r.a * 100000 + r.b; }
+/* passes the raw byte as the _Bool argument: 0 and 1 are valid, anything else cannot be decoded */
+int call_i_b(int (*cb)(_Bool), int raw) { return ((int (*)(unsigned char))cb)((unsigned char)raw); }
+/* enters a callback through its bare address (no Python object is involved in the call) */
+int call_raw_i_i(uintptr_t addr, int x) { return ((int (*)(int))addr)(x); }
 """
 SIGS = {
     'i_i': 'int(*)(int)', 'l_ll': 'long(*)(long, long)', 'd_d': 'double(*)(double)',
     'i_iii': 'int(*)(int, int, int)', 'v_p': 'void(*)(int *)', 'h_c': 'short(*)(char)',
-    's_i': 'spt_t(*)(int)',
+    's_i': 'spt_t(*)(int)', 'i_b': 'int(*)(_Bool)',
 }
 SIGNAMES = sorted(SIGS)
 VARIADIC = 'int(*)(int, ...)'
@@ -61,12 +67,13 @@ class Run(object):
         self.reused = 0
         self.dead_addrs = set()
         self.wrs = {}
+        self.fresh = []
 
     # ---- creation ----
     def expected(self, e, args):
         s = e.serial
         if e.raises:
-            return {'i_i': -7, 'l_ll': -7, 'd_d': -7.0, 'i_iii': -7, 'h_c': -7, 's_i': (0, 0)}.get(e.sig)
+            return {'i_i': -7, 'l_ll': -7, 'd_d': -7.0, 'i_iii': -7, 'h_c': -7, 's_i': (0, 0), 'i_b': -7}.get(e.sig)
         if e.sig == 'i_i':
             return (s * 31 + args[0]) % 1000003
         if e.sig == 'l_ll':
@@ -79,6 +86,8 @@ class Run(object):
             return (s + ord(args[0])) % 30000
         if e.sig == 's_i':
             return ((s + args[0]) % 100, (s * 7 + args[0]) % 30000)
+        if e.sig == 'i_b':
+            return (s * 3 + (1 if args[0] else 0)) % 1000003
         return None
 
     def make_fn(self, e):
@@ -218,6 +227,9 @@ class Run(object):
         elif sig == 'h_c':
             args = (bytes([65 + x % 26]),)
             got = lib.call_h_c(e.cb, *args) if via == 'C' else e.cb(*args)
+        elif sig == 'i_b':
+            args = (bool(x % 2),)
+            got = lib.call_i_b(e.cb, x % 2) if via == 'C' else e.cb(*args)
         elif sig == 's_i':
             args = (x % 1000,)
             if via == 'C':
@@ -277,6 +289,31 @@ class Run(object):
             e = self.create(op[1], op[2], raises=op[3], cyc=op[4])
             if e is not None:
                 self.slots.append(e)
+        elif name == 'badarg':
+            # fault: C passes an argument that cannot be decoded (a _Bool byte that is neither 0 nor 1).
+            # The callback's own function must not run, its error value comes back, and every live
+            # callback -- this one included -- stays bound to its own function afterwards.
+            c = [e for e in self.slots if e.sig == 'i_b']
+            if c:
+                e = c[op[1] % len(c)]
+                n0 = e.state['calls']
+                got = self.lib.call_i_b(e.cb, 2 + op[1] % 200)
+                self.out.fault('undecodable_argument_from_C')
+                if e.state['calls'] != n0:
+                    self.out.unspec('function_ran_on_undecodable_argument')
+                want = -7 if e.raises else 0
+                if got != want:
+                    self.out.unspec('undecodable_argument_result_%r' % (got,))
+                for _ in range(2):
+                    ne = self.create(SIGNAMES[(op[1] + _) % len(SIGNAMES)], 'inline')
+                    if ne is not None:
+                        self.slots.append(ne)
+                self.call(e, 'C', op[1])
+                self.call(e, 'cdata', op[1] + 1)
+        elif name == 'selfreplace':
+            self.op_selfreplace(op[1])
+        elif name == 'deldrop':
+            self.op_deldrop(op[1])
         elif name == 'clone':
             if self.slots:
                 src = self.slots[op[1] % len(self.slots)]
@@ -348,6 +385,66 @@ class Run(object):
                 self.op_gremlin(op[1])
         else:
             raise HarnessError('unknown op %r' % (op,))
+
+    def op_selfreplace(self, x):
+        """a callback that, while it runs (entered through its bare address), drops the last reference to
+        itself, creates a replacement with another error value, and raises: the value C gets back must
+        be its OWN error value"""
+        run = self
+        st = dict(calls=0)
+        holder = []
+
+        def fn(v):
+            st['calls'] += 1
+            del holder[:]                       # the last reference to this callback's cdata
+            ne = run.create('i_i', 'inline')
+            if ne is not None:
+                run.slots.append(ne)
+            raise RuntimeError('injected failure after self-replacement')
+        cb = self.iffi.callback(SIGS['i_i'], fn, error=-11)
+        addr = int(self.iffi.cast('uintptr_t', cb))
+        if addr in self.addrs:
+            raise Violation('C29.1', 'new callback got address %#x which still belongs to a live callback' % addr)
+        holder.append(cb)
+        del cb
+        got = self.lib.call_raw_i_i(addr, x % 1000)
+        self.out.fault('callback_drops_itself_while_running')
+        if st['calls'] != 1:
+            raise Violation('C29.2', 'a callback entered through its address ran its function %d times' % st['calls'])
+        if got != -11:
+            raise Violation('C29.2', 'a callback that raised returned %d, its own error value is -11' % got)
+
+    def op_deldrop(self, n):
+        """a callback whose Python function owns an object with __del__ that creates callbacks: they are
+        created in the middle of the deallocation of the first one"""
+        run = self
+
+        class OnDel(object):
+            def __del__(self):
+                try:
+                    for i in range(n):
+                        ne = run.create(SIGNAMES[i % len(SIGNAMES)], 'inline')
+                        if ne is not None:
+                            run.slots.append(ne)
+                            run.fresh.append(ne)
+                    run.out.fault('callbacks_created_during_a_callback_deallocation')
+                except Violation as v:
+                    run.gv = v
+
+        e = self.create('i_i', 'inline')
+        if e is None:
+            return
+        e.state['fn'].ondel = OnDel()
+        e.state.pop('fn', None)
+        self.call(e, 'C', 3)
+        del e.cb
+        del e
+        # the callbacks made by __del__ must be fully functional
+        fresh, self.fresh = self.fresh, []
+        for ne in fresh:
+            if 'calling' not in repr(ne.cb):
+                raise Violation('C29.2', 'a live callback lost its Python function: %r' % (ne.cb,))
+            self.call(ne, 'C', 7)
 
     def op_gremlin(self, n):
         run = self
@@ -442,15 +539,17 @@ class C29(core.Check):
             ops.append(['bulkdrop', rng.u64(), 0.5])
             ops.append(['bulk', 14000, rng.choice(SIGNAMES), 'module'])
         for _ in range(rng.randint(5, 80)):
-            name = rng.weighted([('create', 25), ('clone', 5), ('call', 20), ('drop', 18), ('bulk', 4), ('bulkdrop', 4),
+            name = rng.weighted([('create', 25), ('clone', 5), ('badarg', 3), ('selfreplace', 2), ('deldrop', 2), ('call', 20), ('drop', 18), ('bulk', 4), ('bulkdrop', 4),
                                  ('failcreate', 4), ('mmapfail', 2), ('collect', 6), ('gremlin', 2)])
             if name == 'create':
                 ops.append(['create', rng.choice(SIGNAMES), rng.choice(['module', 'inline']),
                             rng.chance(0.1), rng.chance(0.2)])
             elif name == 'call':
                 ops.append(['call', rng.below(100000), rng.choice(['C', 'cdata']), rng.below(100000)])
-            elif name in ('drop', 'clone'):
+            elif name in ('drop', 'clone', 'badarg', 'selfreplace'):
                 ops.append([name, rng.below(100000)])
+            elif name == 'deldrop':
+                ops.append(['deldrop', rng.randint(1, 4)])
             elif name == 'bulk':
                 n = rng.choice([500, 1500, 3000, 5000]) if big else rng.choice([10, 80, 200])
                 ops.append(['bulk', n, rng.choice(SIGNAMES), rng.choice(['module', 'inline'])])
